@@ -12,7 +12,7 @@ Doms == [leafPortsK |-> {2, 1, 3, 0}, leaf2Inherit |-> {"Leaf", "", "Nope", "Lea
          boxArgsN |-> {1, 0, 2}, midLsK |-> {2, 1, 0, Atom}, nIdx |-> {1, 0, 2}, connGate |-> {"port", "nogate"}, connSub |-> {"m", "nosub"},
          link |-> {"L2", "", "L9", "L3"}, entry |-> {"Main", "Nope", "Mid"}, dupGen |-> {FALSE, TRUE}, selfConn |-> {FALSE, TRUE},
          nK |-> {2, 3, 0}, sideIdx |-> {0, 1, 2, Atom}, boxInArgs |-> {0, 1},
-         gArg |-> {"Iface", "ImplMore", "ImplLess", "ImplGateLess"}, leaf1K |-> {Atom, 1}, fwdGen |-> {FALSE, TRUE}]
+         gArg |-> {"Iface", "ImplMore", "ImplLess", "ImplGateLess", "ImplWrongSub"}, leaf1K |-> {Atom, 1}, fwdGen |-> {FALSE, TRUE}]
 Base == [leafPortsK |-> 2, leaf2Inherit |-> "Leaf", boxArg |-> "Leaf2", boxArgsN |-> 1, midLsK |-> 2, nIdx |-> 1, connGate |-> "port",
          connSub |-> "m", link |-> "L2", entry |-> "Main", dupGen |-> FALSE, selfConn |-> FALSE, nK |-> 2, sideIdx |-> 0, boxInArgs |-> 0,
          gArg |-> "Iface", leaf1K |-> Atom, fwdGen |-> FALSE]
@@ -38,6 +38,7 @@ DefOf(q) ==
      ImplMore |-> Mod(<<>>, "Iface", <<F("q", Atom)>>, <<Sub("more", Atom, "Leaf", <<>>)>>, <<>>),
      ImplLess |-> Mod(<<>>, "", <<F("p", Atom)>>, <<>>, <<>>),
      ImplGateLess |-> Mod(<<>>, "", <<F("q", Atom)>>, <<Sub("inner", Atom, "Leaf", <<>>)>>, <<>>),
+     ImplWrongSub |-> Mod(<<>>, "", <<F("p", Atom)>>, <<Sub("inner", Atom, "Other", <<>>)>>, <<>>),   \* same submodule name, other type
      GBox  |-> Mod(<<Gen("y", "Iface")>>, "", <<>>, <<Sub("t", Atom, "y", <<>>)>>,
                    <<Con(<<F("t", Atom), F("inner", Atom), F("port", Atom)>>, <<F("t", Atom), F("p", Atom)>>, "")>>),
      Box   |-> Mod(IF q.dupGen THEN <<Gen("x", "Leaf"), Gen("x", "Leaf")>> ELSE <<Gen("x", "Leaf")>>, "",
